@@ -255,7 +255,7 @@ def run_check(ctx):
             if not ok:
                 ctx.known_hit[f["id"]] = f
     template_part(ctx)
-    n1, n2 = (6000, 12000) if ctx.tier == "thorough" else (320, 480)
+    n1, n2 = (6000, 12000) if ctx.tier == "thorough" else (320, 320)
     run.run_sharded(ctx, insertion_worker, [(n1 // 16, run.sub_seed(ctx.seed, "c15a", i)) for i in range(16)])
     run.run_sharded(ctx, grammar_worker, [(n2 // 16, run.sub_seed(ctx.seed, "c15c", i)) for i in range(16)])
 
